@@ -1,5 +1,5 @@
 """Per-property checks: which engines decide a property and how their results become a verdict."""
-import os, time, json
+import os, time, json, re, glob
 from common import *
 
 E1_ASSUMPTIONS = [
@@ -9,6 +9,54 @@ E1_ASSUMPTIONS = [
     "atomics that bypass the hook (coverage.uninstrumented_atomics) are invisible to the scheduler",
     "compare_exchange_weak is modelled as strong; state keys are 128-bit hashes of exact states",
 ]
+
+def e1_diff_part(prop, tier, seed):
+    """C17, concurrent leg: the same configuration family explored by two differently compiled E1 binaries;
+    per configuration the set of outcomes (delivered positions per thread, query answers, panics, remainder)
+    and the violation classes must be identical."""
+    bins = {"release": build_conc("release"), "hdbg": build_conc("hdbg")}
+    nsh = 32
+    res = {}
+    agg = {"configs": 0, "executions": 0, "states": 0, "transitions": 0, "complete_executions": 0}
+    samples = []
+    rundir = os.path.join(TARGET, "run")
+    for prof, binary in bins.items():
+        emit = os.path.join(rundir, f"{prop}-e1diff-{prof}.out")
+        for f in glob.glob(emit + ".*"):
+            os.remove(f)
+        shards = run_shards(binary, ["prop", "--prop", prop, "--tier", tier, "--seed", str(seed), "--cfg-max-secs", "60", "--emit-outcomes", emit], nsh, os.path.join(rundir, f"{prop}-e1diff-{prof}"), 900)
+        for s in shards:
+            if s["engine_errors"]:
+                raise MachineryError("; ".join(s["engine_errors"][:3]))
+            for k in agg:
+                agg[k] += s[k]
+            if prof == "release":
+                samples += s["samples"][:1]
+        table = {}
+        for f in glob.glob(emit + ".*"):
+            for line in open(f):
+                cli, oc, vc, capped = line.rstrip("\n").split("\t")
+                table[cli] = (oc, vc, capped)
+            os.remove(f)
+        res[prof] = table
+    viols = []
+    a, b = res["release"], res["hdbg"]
+    ndiff = 0
+    for cli in sorted(set(a) | set(b)):
+        if a.get(cli) != b.get(cli):
+            ndiff += 1
+            ra, rb = a.get(cli, ("", "", "")), b.get(cli, ("", "", ""))
+            what = "violation classes differ" if ra[1] != rb[1] else "outcome sets differ"
+            kind = re.search(r"--kind (\S+)", cli).group(1) if re.search(r"--kind (\S+)", cli) else "?"
+            viols.append({"prop": prop, "engine": "E1", "class": "profile-diff-concurrent", "kind": kind, "cli": cli, "count": 1,
+                          "msg": f"[{cli}] {what} between the optimized build (violations: {ra[1] or 'none'}; {len(ra[0].split(',')) if ra[0] else 0} outcomes) and the build with debug assertions + overflow checks (violations: {rb[1] or 'none'}; {len(rb[0].split(',')) if rb[0] else 0} outcomes)",
+                          "replay_cmd": f"{bins['release']} one {cli}; {bins['hdbg']} one {cli}"})
+    cov = {
+        "engine_E1_two_profiles": {"configurations_per_profile": len(a), "configurations_with_differences": ndiff, "executions_both_profiles": agg["executions"], "states": agg["states"], "transitions": agg["transitions"]},
+        "states": agg["states"], "transitions": agg["transitions"], "traces_validated_against_impl": agg["complete_executions"],
+        "evaluations": agg["executions"], "distinct_nontrivial": len(a), "samples": samples[:2], "exhaustive": True,
+    }
+    return cov, viols
 
 def e1_part(prop, tier, seed, level="model_checking"):
     binary = build_conc()
@@ -134,6 +182,10 @@ def run_check(prop, tier, seed):
             c, v = e1_part(prop, tier, seed)
             assumptions += E1_ASSUMPTIONS
             rules.append(RULES["E1"])
+        elif eng == "E1diff":
+            c, v = e1_diff_part(prop, tier, seed)
+            assumptions += E1_ASSUMPTIONS
+            rules.append("E1 two-profile leg: every configuration of the C17 family (length queries racing with overshooting pulls, skips, drains; 2 threads, complete exploration) is explored by an optimized E1 binary and by one built with debug assertions + overflow checks; outcome sets and violation classes are compared per configuration.")
         elif eng == "E3":
             import e3
             c, v = e3.part(prop, tier, seed, **kw)
@@ -173,7 +225,7 @@ CHECKS = {
     "C14": {"engines": ["E4", "E3"], "level": "exploration"},
     "C15": {"engines": ["E3"]},
     "C16": {"engines": [("E3", {"suite": "C16", "profiles": ("pdbg", "prel"), "all_tags": True}), ("E3", {"suite": "C16R", "profiles": ("pdbg", "prel"), "all_tags": True})], "level": "exploration"},
-    "C17": {"engines": [("E3", {"profiles": ("pdbg", "prel"), "diff": True})], "level": "exploration"},
+    "C17": {"engines": [("E3", {"profiles": ("pdbg", "prel"), "diff": True}), "E1diff"], "level": "exploration"},
     "C18": {"engines": ["E1"], "level": "fault_enumeration"},
     "C19": {"engines": ["E3"]},
 }
